@@ -21,8 +21,9 @@ func init() {
 			"V3 per-file kill takes only files whose keep-alive set is nil, and the set becomes nil only when empty after removing arguments nobody waits for, " +
 			"V4 chunk files of a non-volatile stage are reclaimed only if the stage splits, " +
 			"V5 top-level outputs and retains are registered with the nil consumer which can never be removed, and dynamic forks inherit both maps, " +
-			"V6 fileArgs/filePostNodes/fileParamMap are only accessed under Fork.storageLock outside the constructor phase. " +
-			"NOT decided: whether getLogicalFileNames/anyOverlap find every alias of a file (file-system values).",
+			"V6 fileArgs/filePostNodes/fileParamMap are only accessed under Fork.storageLock outside the constructor phase, " +
+			"V7 alias completeness: once a file is known to exist every returning path of getLogicalFileNames consults filepath.EvalSymlinks and appends its result. " +
+			"NOT decided: whether the names found are every alias of a file, anyOverlap (file-system values).",
 		Assumptions: commonAssumptions,
 	}
 }
@@ -66,6 +67,7 @@ func runC04(c *an.Ctx) {
 	ruleV4(c)
 	ruleV5(c)
 	ruleV6(c)
+	ruleV7(c)
 }
 
 func ruleV1(c *an.Ctx) {
@@ -789,4 +791,78 @@ func ruleV6(c *an.Ctx) {
 			c.Check("V6", key, r.Instr.Pos(), r.OK, r.Reason)
 		}
 	}
+}
+
+// V7 alias completeness.  A stage may name a file through a path that crosses a symlinked
+// directory; the file cache is keyed by every logical name of a file so that an argument naming it
+// either way keeps it alive.  The fully resolved name can only come from filepath.EvalSymlinks
+// (the Readlink loop resolves the last component only).  Necessary condition: once the file is
+// known to exist, every path to a return of getLogicalFileNames consults EvalSymlinks, and the
+// resolved name can reach the returned list.
+func ruleV7(c *an.Ctx) {
+	fn := c.NeedFunc(pkgCore, "getLogicalFileNames")
+	if fn == nil {
+		return
+	}
+	var lstat *ssa.Call
+	var evals []*ssa.Call
+	an.Instrs(fn, func(in ssa.Instruction) {
+		if call, ok := an.IsPkgFuncCall(in, "os", "Lstat"); ok && lstat == nil {
+			if cc, ok := call.(*ssa.Call); ok && len(cc.Call.Args) == 1 && an.RootOf(cc.Call.Args[0]) == ssa.Value(fn.Params[0]) {
+				lstat = cc
+			}
+		}
+		if call, ok := an.IsPkgFuncCall(in, "path/filepath", "EvalSymlinks"); ok {
+			if cc, ok := call.(*ssa.Call); ok {
+				evals = append(evals, cc)
+			}
+		}
+	})
+	if lstat == nil {
+		c.Undecided("V7", "resolved-name-always-computed@getLogicalFileNames", fn.Pos(), "no os.Lstat(name) on the parameter found")
+		return
+	}
+	isErrOfLstat := func(v ssa.Value) bool {
+		ex, ok := v.(*ssa.Extract)
+		return ok && ex.Tuple == ssa.Value(lstat) && ex.Index == 1
+	}
+	w := an.Query{Fn: fn, After: lstat, Target: an.IsReturn,
+		Barrier: func(x ssa.Instruction) bool {
+			for _, e := range evals {
+				if x == ssa.Instruction(e) {
+					return true
+				}
+			}
+			return false
+		},
+		BarrierEdge: func(from, to *ssa.BasicBlock) bool {
+			cnd, t, ok := an.EdgeCond(from, to)
+			if !ok {
+				return false
+			}
+			r := an.Normalize(cnd, t)
+			return r.Op == token.NEQ && isErrOfLstat(r.X) && an.IsNil(r.Y)
+		}}.Find()
+	c.Check("V7", "resolved-name-always-computed@getLogicalFileNames", lstat.Pos(), w == nil && len(evals) > 0,
+		"once the file exists every returning path must consult filepath.EvalSymlinks: a file reached through a symlinked directory is otherwise cached under one name only and an argument naming it the other way does not keep it alive; "+c.WitnessString(w))
+	// the resolved name is appended to the result
+	flows := false
+	an.Instrs(fn, func(in ssa.Instruction) {
+		call, ok := in.(*ssa.Call)
+		if !ok {
+			return
+		}
+		if args, isApp := an.IsBuiltinCall(call, "append"); isApp && len(args) == 2 {
+			if v := storedElem(args[1]); v != nil {
+				if ex, ok := v.(*ssa.Extract); ok && ex.Index == 0 {
+					for _, e := range evals {
+						if ex.Tuple == ssa.Value(e) {
+							flows = true
+						}
+					}
+				}
+			}
+		}
+	})
+	c.Check("V7", "resolved-name-returned@getLogicalFileNames", fn.Pos(), flows, "the EvalSymlinks result must be appended to the list of names")
 }
